@@ -19,6 +19,6 @@ CONSTANTS
   SlackEarly = 0
   SlackLate = 0
   SlackSched = 0
-INVARIANTS C18_NoLeak C18_ServeWaits C18_SocketsFollowHandler
+INVARIANTS C18_NoLeak C18_AllReturned C18_ServeWaits C18_SocketsFollowHandler
 PROPERTIES C18_Isolation
 VIEW ViewMech
